@@ -207,6 +207,16 @@ Definition call_labels (s : state) (ext : list Z) (healthy : bool) : list label 
       else [LGet ext; LReturn tid false; LIncAdd tid; LSetTimer tid]
   end.
 
+(* labels that take call tid from the wrapped client's return to its end *)
+Definition finish_labels (s : state) (tid : nat) (healthy : bool) : list label :=
+  match get_thread s tid with
+  | Some (PCall c) =>
+      if healthy then [LReturn tid true; LTotal tid]
+      else if c_pen (getc s c) + 1 >? maxPenalty then [LReturn tid false; LIncAdd tid; LDecOverflow tid; LTotal tid]
+      else [LReturn tid false; LIncAdd tid; LSetTimer tid]
+  | _ => []
+  end.
+
 Fixpoint due_index (now : Z) (i : nat) (l : list Z) : option nat :=
   match l with
   | [] => None
